@@ -29,7 +29,7 @@ type c18Env struct {
 
 func newC18Env(t *testing.T, transactional bool) *c18Env {
 	hub := newRecHub()
-	tc := mustBoot(t, coreOpts{transactional: transactional, cacheOff: true,
+	tc := mustBoot(t, coreOpts{transactional: transactional, cacheOff: true, retryBase: 40 * time.Millisecond,
 		logical:    map[string]logical.Factory{"recbe": hub.factory("recbe", logical.TypeLogical)},
 		credential: map[string]logical.Factory{"recauth": hub.factory("recauth", logical.TypeCredential)}})
 	tc.mount("rb", "recbe", nil)
@@ -237,6 +237,20 @@ func TestVerif_C18_UnwrapOnce(t *testing.T) {
 		var trace []string
 		if mode <= 5 {
 			if mode == 0 {
+				// the revocation the expiration manager starts when the wrap TTL runs out may itself be late or fail: in
+				// half of these histories every listing of a token's children (the first storage step of a token
+				// revocation) fails from before the expiry until the attempts are over. Late or not, the payload is
+				// obtainable only before the TTL elapses.
+				if rapid.Bool().Draw(rt, "expiryRevocationFails") {
+					tc.rec.SetFault(func(o *verifx.Op) error {
+						if o.Kind == "list" && strings.HasPrefix(o.Key, "sys/token/parent/") {
+							return fmt.Errorf("verif: storage outage")
+						}
+						return nil
+					})
+					defer tc.rec.SetFault(nil)
+					rec.Class("ttl-lapse-with-failing-expiry-revocation", 1)
+				}
 				time.Sleep(2500 * time.Millisecond)
 				lapsed = true
 			}
@@ -259,6 +273,7 @@ func TestVerif_C18_UnwrapOnce(t *testing.T) {
 				}
 				attempt(tk, wi.Token)
 			}
+			tc.rec.SetFault(nil)
 		} else {
 			sched := verifx.NewSched(tc.rec)
 			defer func() {
@@ -322,7 +337,15 @@ func TestVerif_C18_UnwrapOnce(t *testing.T) {
 				// the right may travel further along a chain of rewraps; every generation reports the path that
 				// created the wrapped response, and the previous generation is dead
 				for hop, hops := 0, fairIndex(rt, "furtherRewraps", 3); hop < hops; hop++ {
-					rr2 := tc.req(logical.UpdateOperation, "sys/wrapping/rewrap", e.other, map[string]any{"token": tok})
+					// the rewrap request may itself ask for a wrap TTL (the documented way to get a shorter- or
+					// longer-lived copy): shorter than, equal to or longer than the original one
+					rwReq := &logical.Request{Operation: logical.UpdateOperation, Path: "sys/wrapping/rewrap", ClientToken: e.other, Data: map[string]any{"token": tok}}
+					rwTTL := []time.Duration{0, 0, wrapTTL / 2, wrapTTL, 2 * wrapTTL, 37 * time.Second}[fairIndex(rt, "rewrapRequestTTL", 6)]
+					if rwTTL > 0 && wrapTTL > 2*time.Second {
+						rwReq.WrapInfo = &logical.RequestWrapInfo{TTL: rwTTL}
+						rec.Class("rewrap-with-request-ttl", 1)
+					}
+					rr2 := tc.do(rwReq)
 					if !rr2.ok() || rr2.resp == nil || rr2.resp.WrapInfo == nil {
 						break
 					}
